@@ -395,18 +395,46 @@ fn find_stmt(list: &[J], ws: usize, we: usize, prefix: &mut Vec<usize>, found: &
         prefix.push(i);
         if n["sp"][0].as_u64() == Some(ws as u64) && n["sp"][1].as_u64() == Some(we as u64) && (prefix.len() == 1 || list.len() > 1) {
             *found = Some(prefix.clone());
-        } else if n["k"] == "block" {
-            if let Some(inner) = n["s"].as_array() {
-                find_stmt(inner, ws, we, prefix, found);
+        } else {
+            // statement lists nested in this statement: blocks, if-branches, closure bodies,
+            // and the same inside the right-hand side of an assignment
+            for (slot, key) in STMT_LISTS.iter().enumerate() {
+                if let Some(inner) = stmt_list(n, key) {
+                    prefix.push(slot);
+                    find_stmt(inner, ws, we, prefix, found);
+                    prefix.pop();
+                }
             }
         }
         prefix.pop();
     }
 }
 
+/// Where statement lists can hide inside a statement: (pointer into the node)
+const STMT_LISTS: [&str; 6] = ["/s", "/t", "/e", "/cl/s", "/e/t", "/e/e"];
+
+fn stmt_list<'a>(n: &'a J, key: &str) -> Option<&'a Vec<J>> {
+    let k = n["k"].as_str().unwrap_or("");
+    let ok = match key {
+        "/s" => k == "block",
+        "/t" => k == "if",
+        "/e" => k == "if" && n["he"].as_bool().unwrap_or(false),
+        "/cl/s" => k == "call" && n.get("cl").is_some(),
+        "/e/t" => (k == "asg" || k == "asg2") && n["e"]["k"] == "if",
+        "/e/e" => (k == "asg" || k == "asg2") && n["e"]["k"] == "if" && n["e"]["he"].as_bool().unwrap_or(false),
+        _ => false,
+    };
+    if ok { n.pointer(key).and_then(|x| x.as_array()) } else { None }
+}
+
+/// path = [index in root list, (slot, index)*]
 fn node_at<'a>(list: &'a [J], path: &[usize]) -> &'a J {
     let n = &list[path[0]];
-    if path.len() == 1 { n } else { node_at(n["s"].as_array().expect("block"), &path[1..]) }
+    if path.len() == 1 {
+        n
+    } else {
+        node_at(stmt_list(n, STMT_LISTS[path[1]]).expect("statement list"), &path[2..])
+    }
 }
 
 fn remove_stmt(list: &[J], path: &[usize]) -> Vec<J> {
@@ -414,8 +442,9 @@ fn remove_stmt(list: &[J], path: &[usize]) -> Vec<J> {
     if path.len() == 1 {
         out.remove(path[0]);
     } else {
-        let inner = remove_stmt(out[path[0]]["s"].as_array().expect("block"), &path[1..]);
-        out[path[0]]["s"] = J::Array(inner);
+        let key = STMT_LISTS[path[1]];
+        let inner = remove_stmt(stmt_list(&out[path[0]], key).expect("statement list"), &path[2..]);
+        *out[path[0]].pointer_mut(key).expect("statement list") = J::Array(inner);
     }
     out
 }
